@@ -20,7 +20,7 @@ def check(pid, **kw):
 
 RULE_LOCAL = ("strings are enumerated once each by the L1 odometer (all token strings up to the bound over the class alphabet); "
               "a string counts as non-trivial when it has >= 2 bytes and the reference automaton is still alive before its last byte "
-              "(L2/L3/sweep strings, the scalar-surrounding product and the 'huge' lengths 2^8..2^32 are evaluated too but not counted here, they may repeat L1 strings)")
+              "(L2/L3/sweep strings, the scalar-surrounding product, the 'huge' lengths 2^8..2^32, the alignment sweep and the deep six-class strings of <= 10 (12) tokens are evaluated too but not counted here, they may repeat L1 strings)")
 
 check('C02', level='model_checking', steps=[dict(src='drv/local.c', variant='plain', defs=[], name='local-ascii')],
       rule=RULE_LOCAL, deadline=dict(quick=240, thorough=3000),
@@ -51,7 +51,7 @@ check('C05', level='exploration', steps=[dict(src='drv/c05.c', variant='plain', 
       deadline=dict(quick=240, thorough=3000))
 
 check('C01', level='exploration', steps=[dict(src='drv/c01.c', variant='plain', name='email')],
-      rule=("each generator emits every case once (L1 odometer over 12 classes, L2 templates x bytes, L3 length/placement generators, 'huge' lengths k*2^8+d and k*2^16+d - thorough also 2^24, 2^31, 2^32 - where a narrow counter wraps, the product local part 1..70 x domain 240..262), every case "
+      rule=("each generator emits every case once (L1 odometer over 12 classes, L2 templates x bytes, every byte substituted at every position of 12 complete addresses, L3 length/placement generators, 'huge' lengths k*2^8+d and k*2^16+d - thorough also 2^24, 2^31, 2^32 - where a narrow counter wraps, the product local part 1..70 x domain 240..262), every case "
             "is run in 4 modes x tld_check off/on; non-trivial = L1 strings containing an '@' with bytes on both sides; counted by the driver"),
       deadline=dict(quick=240, thorough=3000))
 
